@@ -38,7 +38,8 @@ TxDef == [
   S1x |-> [ins |-> {O("R1", 1)}, outs |-> <<[v |-> 44, mine |-> FALSE], [v |-> 5, mine |-> TRUE]>>],        \* conflicting spend of the same coin
   S2  |-> [ins |-> {O("S1", 2)}, outs |-> <<[v |-> 10, mine |-> FALSE], [v |-> 18, mine |-> TRUE]>>],       \* spends the change of S1
   M1  |-> [ins |-> {O("R2", 1), O("F3", 1)}, outs |-> <<[v |-> 120, mine |-> TRUE], [v |-> 9, mine |-> FALSE]>>],   \* joint spend with a foreign input
-  S3  |-> [ins |-> {O("R2", 1), O("S1", 2)}, outs |-> <<[v |-> 58, mine |-> TRUE]>>] ]                      \* consolidation; conflicts with S2 and M1
+  S3  |-> [ins |-> {O("R2", 1), O("S1", 2)}, outs |-> <<[v |-> 58, mine |-> TRUE]>>],                      \* consolidation; conflicts with S2 and M1
+  S4  |-> [ins |-> {O("R1", 1), O("R2", 1)}, outs |-> <<[v |-> 78, mine |-> TRUE], [v |-> 1, mine |-> FALSE]>>] ]  \* spends both payments; conflicts with S1, S1x, M1, S3
 AllTx == DOMAIN TxDef
 Tx == Enabled
 CbValue == 7
@@ -173,7 +174,7 @@ OpStr(o) == o[1] \o ":" \o ToString(o[2])
 UniJson == [t \in Tx |-> [ins |-> TxDef[t].ins, outs |-> TxDef[t].outs]]
 ProjOf(W, v, first) ==
         [chain |-> W.ch, pool |-> W.P, bal |-> v.bal, coins |-> {OpStr(o) : o \in v.avail},
-         known |-> W.K, aband |-> W.A, conflicted |-> v.bconf, uni |-> IF first THEN UniJson ELSE <<>>]
+         known |-> W.K, aband |-> W.A, conflicted |-> v.bconf, pconflicted |-> v.pconf, uni |-> IF first THEN UniJson ELSE <<>>]
 
 \* ------------------------------------------------------------------------------------------------------------ state
 Cur == [bt |-> btxs, cm |-> cbm, sp |-> span, ch |-> ChainTo(parent, tip), P |-> pool, K |-> known, A |-> aband]
@@ -267,6 +268,9 @@ Abandon(t) == LET W == Cur inact == wv.inactive IN
 Next == \/ \E t \in Tx, w \in BOOLEAN : Submit(t, w)
         \/ \E S \in BlockChoices(ChainTxs(btxs, ChainTo(parent, tip))), m \in BOOLEAN : Mine(S, m, FALSE)
         \/ Mine(<<>>, FALSE, TRUE)
+        \* (listed separately so that simulation takes this road often) a block confirms a transaction that conflicts with the mempool
+        \/ \E t \in Tx, m \in BOOLEAN : /\ \E u \in pool : u # t /\ Ins(u) \cap Ins(t) # {}
+                                        /\ Mine(<<t>>, m, FALSE)
         \/ \E b \in 1..nb : Invalidate(b) \/ Reconsider(b)
         \/ \E t \in Tx : Abandon(t)
         \/ \E t \in Tx : Evict(t)
